@@ -2068,7 +2068,7 @@ class _GroupElem(ABC):
             matrixType = MatrixType.mass
             jacobian_e_pg = self.Get_jacobian_e_pg(matrixType, absoluteValues=False)
             invF_e_pg = self.Get_invF_e_pg(matrixType)
-            dN_tild = self._dN()
+            N_tild = self._N()
             xiOrigin = self.origin  # origin of the reference element (ξ0,η0)
 
             # Check whether iterative resolution is required
@@ -2130,9 +2130,11 @@ class _GroupElem(ABC):
                     # This is the most time-consuming method.
                     # We need to construct the Jacobian matrices here.
                     def Eval(xi: _types.FloatArray, xP: _types.FloatArray):
-                        dN = _GroupElem._Eval_Functions(dN_tild, xi.reshape(1, -1))
-                        F = dN[0] @ coordElemBase[:, :dim]  # jacobian matrix [J]
-                        J = x0 + (xi - xiOrigin) @ F - xP  # cost function
+                        # x(xi) = N(xi) · X is the isoparametric map itself; the local
+                        # linearisation x0 + (xi - xi0) · F(xi) is a different function
+                        # on non-parallelogram elements.
+                        N = _GroupElem._Eval_Functions(N_tild, xi.reshape(1, -1))
+                        J = N[0, 0] @ coordElemBase[:, :dim] - xP  # cost function
                         return J
 
                     xiP = []
